@@ -50,7 +50,7 @@ MutKinds == {"truncate", "del-byte", "flip-lt", "flip-gt", "flip-quote", "flip-a
              "attr-empty", "attr-short", "attr-nonascii", "attr-dup", "attr-unknown", "attr-drop",
              "entity-unknown", "entity-numeric", "entity-unterminated", "text-amp", "text-lt", "text-junk", "text-empty",
              "swap-close", "drop-close", "dup-elem", "drop-elem", "rename-elem",
-             "insert-comment", "insert-cdata", "insert-pi", "insert-doctype", "deep-nest", "ns-prefix", "bom", "trailing-junk"}
+             "insert-comment", "insert-cdata", "insert-pi", "insert-doctype", "deep-nest", "ns-prefix", "ns-other", "bom", "trailing-junk"}
 VARIABLES op, variant, focus, str, shape, opt, mut, pos, pform
 vars == <<op, variant, focus, str, shape, opt, mut, pos, pform>>
 Init ==
